@@ -17,6 +17,7 @@ pub struct C20 {
     n_igs_mixed: u64,
     igs_mixed_len: u32,
     n_rip_viewport: u64,
+    n_igs_blit: u64,
 }
 
 /// (level prefix, command letter)
@@ -108,6 +109,10 @@ fn rip_random(rng: &mut Rng) -> Vec<u8> {
         out.extend_from_slice(if rng.bool() { b"\n" } else { b"\r\n" });
         if rng.chance(1, 8) {
             out.extend_from_slice(b"plain text \x1b[1;31mred\x1b[0m\r\n");
+        }
+        if rng.chance(1, 6) {
+            // RIPscrip detection / enable / disable requests of the ANSI side (CSI ! , CSI 0 ! , CSI 1 ! , CSI 2 ! , unknown)
+            out.extend_from_slice(rng.pick(&["\x1b[!", "\x1b[0!", "\x1b[1!", "\x1b[2!", "\x1b[3!", "\x1b[1!\x1b[2!", "\x1b[99999!"]).as_bytes());
         }
     }
     out
@@ -267,16 +272,23 @@ impl C20 {
         // pen / pattern / mode the command left behind
         const A: [&str; 6] = ["0", "1", "2", "3", "40", "9999"];
         const B: [&str; 2] = ["0", "9999"];
+        // (C) the selector values of the state commands: text effects 1/2/4/8/16, text sizes 8/9/10/16/18/20, rotations and
+        // marker / line types 1..=7, resolutions, patterns 1..=12: vectors of length 1..=3 over twelve values
+        const C: [&str; 12] = ["0", "1", "2", "3", "4", "5", "6", "7", "8", "10", "16", "18"];
         let per_a: u64 = (0..=max_len).map(|l| 6u64.pow(l)).sum();
         let per_b: u64 = (max_len + 1..=max_len + 5).map(|l| 2u64.pow(l)).sum();
-        let per_cmd = per_a + per_b;
+        let per_c: u64 = (1..=3u32).map(|l| 12u64.pow(l)).sum();
+        let per_cmd = per_a + per_b + per_c;
         let c = IGS_CMDS[((k / per_cmd) % IGS_CMDS.len() as u64) as usize];
         let mut idx = k % per_cmd;
         let (vals, base, mut len): (&[&str], u64, u32) = if idx < per_a {
             (&A, 6, 0)
-        } else {
+        } else if idx < per_a + per_b {
             idx -= per_a;
             (&B, 2, max_len + 1)
+        } else {
+            idx -= per_a + per_b;
+            (&C, 12, 1)
         };
         loop {
             let n = base.pow(len);
@@ -294,7 +306,7 @@ impl C20 {
             }
             bytes.extend_from_slice(vals[((idx / base.pow(i)) % base) as usize].as_bytes());
         }
-        bytes.extend_from_slice(b":\nG#L0,0,9,9:\nG#B2,2,6,6,0:\nG#P3,3:\nG#W1,1,x@\n");
+        bytes.extend_from_slice(b":\nG#L0,0,9,9:\nG#B2,2,6,6,0:\nG#P3,3:\nG#W1,1,x@\nG#W300,190,edge text@\nG#W0,0,top@\n");
         if len <= 3 {
             // every drawing command whose behaviour depends on the state the first command may have left (fill
             // attributes with border, hollow mode, drawing mode, line / marker type, colours, resolution, scaling):
@@ -383,8 +395,43 @@ impl C20 {
             (self.igs_mixed_case(k - self.n_rip_uniform - self.n_rip_mixed - self.n_igs_table - self.n_rip_pairs, self.igs_mixed_len), "igs-mixed")
         } else if k < self.n_rip_uniform + self.n_rip_mixed + self.n_igs_table + self.n_rip_pairs + self.n_igs_mixed + self.n_rip_viewport {
             (self.rip_viewport_case(k - self.n_rip_uniform - self.n_rip_mixed - self.n_igs_table - self.n_rip_pairs - self.n_igs_mixed), "rip-viewport")
+        } else if k < self.n_rip_uniform + self.n_rip_mixed + self.n_igs_table + self.n_rip_pairs + self.n_igs_mixed + self.n_rip_viewport + self.n_igs_blit {
+            (self.igs_blit_case(k - self.n_rip_uniform - self.n_rip_mixed - self.n_igs_table - self.n_rip_pairs - self.n_igs_mixed - self.n_rip_viewport), "igs-blit")
         } else {
             (self.random_case(ctx, k), "random")
+        }
+    }
+
+    fn igs_blit_case(&self, k: u64) -> StreamCase {
+        // GrabScreen with its exact parameter counts (8 / 6 / 4 / 8 for screen-screen, screen-memory, memory-screen, piece of
+        // memory-screen), every write mode 0..=15, seven rectangle patterns (inside, at the edges, inverted, partly and far
+        // outside, empty), in each of the three resolutions; a grab always precedes the memory blits
+        const RECTS: [(i32, i32, i32, i32); 7] = [(10, 10, 60, 40), (0, 0, 319, 199), (300, 180, 340, 220), (60, 40, 10, 10), (-20, -20, 30, 30), (5000, 5000, 9999, 9999), (7, 7, 7, 7)];
+        let mut r = k;
+        let (x0, y0, x1, y1) = RECTS[(r % 7) as usize];
+        r /= 7;
+        let mode = r % 16;
+        r /= 16;
+        let kind = r % 4;
+        r /= 4;
+        let res = r % 3;
+        let (dx, dy) = [(0, 0), (100, 50), (-5, -5), (310, 190)][(k % 4) as usize];
+        let mut s = format!("G#R{res},0:\nG#B0,0,50,50,0:\nG#L0,0,60,60:\n");
+        match kind {
+            0 => s.push_str(&format!("G#G0,{mode},{x0},{y0},{x1},{y1},{dx},{dy}:\n")),
+            1 => s.push_str(&format!("G#G1,{mode},{x0},{y0},{x1},{y1}:\nG#G2,{mode},{dx},{dy}:\n")),
+            2 => s.push_str(&format!("G#G1,3,0,0,40,30:\nG#G2,{mode},{x0},{y0}:\nG#G2,{mode},{dx},{dy}:\n")),
+            _ => s.push_str(&format!("G#G1,3,{x0},{y0},{x1},{y1}:\nG#G3,{mode},{x0},{y0},{x1},{y1},{dx},{dy}:\nG#G3,{mode},0,0,9999,9999,{dx},{dy}:\n")),
+        }
+        s.push_str("G#s0:\n");
+        StreamCase {
+            emu: "igs".into(),
+            music: 0,
+            w: 80,
+            h: 25,
+            alloc: true,
+            prefix: vec![],
+            bytes: s.into_bytes(),
         }
     }
 
@@ -490,7 +537,18 @@ fn command_of(case: &StreamCase, at: Option<usize>) -> String {
 
 pub fn exec(ctx: &mut Ctx, case: &StreamCase, class: &str) {
     let opts = opts_for(case);
-    let (obs, _) = run_stream(case, opts);
+    let (mut obs, _) = run_stream(case, opts);
+    // the CPU clock is the only machine-dependent monitor here: a reading over the limit counts only if two immediate
+    // repetitions of the same stream are over the limit too (the smallest reading is kept)
+    if obs.panic.is_none() && obs.bad_picture.is_none() && obs.measure.cpu_ns > 3_000_000_000 {
+        ctx.count("cpu_clock_readings_over_limit_repeated", 1);
+        for _ in 0..2 {
+            let (again, _) = run_stream(case, opts);
+            if again.measure.cpu_ns < obs.measure.cpu_ns {
+                obs.measure.cpu_ns = again.measure.cpu_ns;
+            }
+        }
+    }
     ctx.count("chars_fed", obs.fed as u64);
     ctx.count("errs_returned", obs.errs);
     ctx.count("pictures_checked", obs.pictures_checked);
@@ -594,7 +652,7 @@ impl Prop for C20 {
         "C20"
     }
     fn rule(&self) -> &'static str {
-        "streams are fed character by character to the real RIPscrip (640x350 BGI canvas, file commands pointed at an empty scratch directory) and IGS (DrawExecutor) emulations under the panic monitor, the pixel work counter (budget 8*(n+2)*canvas), the virtual blocking monitor (any sleep > 0 ms raises) and, after every command terminator, an assertion that get_picture_data() returns width*height*4 bytes; pending IGS loop steps are drained through get_next_action. cases: (rip-uniform) every RIP level-0/1/9 command x parameter length 0..=24 x {all-0, all-1, all-Z} x 2 terminators; (rip-mixed) every command x every string over {0,1,Z} up to length 6; (igs-table) every IGS command x 0..=12 parameters x 7 value classes incl. negative and 2^31-1; (rip-pairs) every ordered pair of RIP commands, each with 24 parameter characters of one class {0,1,Z}: state command then drawing command; (igs-mixed) every IGS command x every parameter vector of length 0..=4 (thorough 5) over {0,1,2,3,40,9999} and of the next five lengths over {0,9999}, followed by a drawing probe (line, box, marker, text; after vectors of length <= 3 also circle, ellipse, arcs, pie slices, rounded / filled rectangle, poly line / fill, flood fill and line-to, in-canvas and far out of canvas, so that border / hollow / mode / colour state set by the first command is used); (rip-viewport) every RIP command with four patterns of in-range coordinates (inside, centre + radii / angles, edges and beyond, absolute screen coordinates) on six viewports (full, offset from the top, offset from the left, a middle window, the bottom-right quarter, tiny), fill style and colour set, followed by a flood fill from inside the viewport; (random) seeded mixed/over-long/truncated parameter lists, continuation lines, text variables, loops with delays, chained commands on a random state prefix. distinct_nontrivial = distinct (emulation, stream head, result kinds, panicked, picture observed) fingerprints"
+        "streams are fed character by character to the real RIPscrip (640x350 BGI canvas, file commands pointed at an empty scratch directory) and IGS (DrawExecutor) emulations under the panic monitor, the pixel work counter (budget 8*(n+2)*canvas), the virtual blocking monitor (any sleep > 0 ms raises) and, after every command terminator, an assertion that get_picture_data() returns width*height*4 bytes; pending IGS loop steps are drained through get_next_action. cases: (rip-uniform) every RIP level-0/1/9 command x parameter length 0..=24 x {all-0, all-1, all-Z} x 2 terminators; (rip-mixed) every command x every string over {0,1,Z} up to length 6; (igs-table) every IGS command x 0..=12 parameters x 7 value classes incl. negative and 2^31-1; (rip-pairs) every ordered pair of RIP commands, each with 24 parameter characters of one class {0,1,Z}: state command then drawing command; (igs-mixed) every IGS command x every parameter vector of length 0..=4 (thorough 5) over {0,1,2,3,40,9999}, of the next five lengths over {0,9999} and of length 1..=3 over the selector values {0..8,10,16,18} (text effects / sizes / rotations, marker and line types, patterns, resolutions), followed by a drawing probe (line, box, marker, text; after vectors of length <= 3 also circle, ellipse, arcs, pie slices, rounded / filled rectangle, poly line / fill, flood fill and line-to, in-canvas and far out of canvas, so that border / hollow / mode / colour state set by the first command is used); (rip-viewport) every RIP command with four patterns of in-range coordinates (inside, centre + radii / angles, edges and beyond, absolute screen coordinates) on six viewports (full, offset from the top, offset from the left, a middle window, the bottom-right quarter, tiny), fill style and colour set, followed by a flood fill from inside the viewport; (igs-blit) GrabScreen with its exact parameter counts for all four kinds x 16 write modes x 7 rectangle patterns x 3 resolutions; (random) seeded mixed/over-long/truncated parameter lists, continuation lines, text variables, loops with delays, chained commands on a random state prefix. distinct_nontrivial = distinct (emulation, stream head, result kinds, panicked, picture observed) fingerprints"
     }
     fn meta(&self, _ctx: &Ctx) -> Value {
         json!({"floor_evaluations": 5000, "floor_distinct": 300, "watchdog_s": 60, "watchdog_is_violation": true, "plain_pass": "quick",
@@ -608,9 +666,10 @@ impl Prop for C20 {
         self.n_rip_pairs = 9 * (RIP_CMDS.len() * RIP_CMDS.len()) as u64;
         self.igs_mixed_len = ctx.tier.pick(4, 5);
         let l = self.igs_mixed_len;
-        self.n_igs_mixed = ((0..=l).map(|i| 6u64.pow(i)).sum::<u64>() + (l + 1..=l + 5).map(|i| 2u64.pow(i)).sum::<u64>()) * IGS_CMDS.len() as u64;
+        self.n_igs_mixed = ((0..=l).map(|i| 6u64.pow(i)).sum::<u64>() + (l + 1..=l + 5).map(|i| 2u64.pow(i)).sum::<u64>() + (1..=3u32).map(|i| 12u64.pow(i)).sum::<u64>()) * IGS_CMDS.len() as u64;
         self.n_rip_viewport = 4 * 6 * RIP_CMDS.len() as u64;
-        self.n_rip_uniform + self.n_rip_mixed + self.n_igs_table + self.n_rip_pairs + self.n_igs_mixed + self.n_rip_viewport + ctx.tier.pick(30_000, 1_500_000)
+        self.n_igs_blit = 7 * 16 * 4 * 3;
+        self.n_rip_uniform + self.n_rip_mixed + self.n_igs_table + self.n_rip_pairs + self.n_igs_mixed + self.n_rip_viewport + self.n_igs_blit + ctx.tier.pick(30_000, 1_500_000)
     }
     fn run_case(&mut self, ctx: &mut Ctx, k: u64) {
         let (case, class) = self.case_for(ctx, k);
